@@ -229,7 +229,7 @@ def observe(seed, tier):
         return json.load(open(cpath))
     t0 = time.time()
     quick = tier == "quick"
-    nflows = 72 if quick else 400
+    nflows = 72 if quick else 1500
     flows, ntypes, r = progen.gen_flows(seed, nflows)
     summary = {"flows": len(flows), "executions": 0, "hits": {}, "samples": [], "dist": {"scenario": {}, "tasks": {}, "features": {}},
                "cff_ok": True, "build_ok": True}
